@@ -693,19 +693,18 @@ class BaseShampooPreconditionerList(
             exception (Exception): The exception to raise.
 
         """
+        local_index = self._masked_failed_amortized_computation_counter_index_list[
+            preconditioner_index
+        ]
         if all(success_tracker):
             # Reset counter for failed amortized computations.
-            self._masked_failed_amortized_computation_counter_list[
-                preconditioner_index
-            ] = 0
+            self._local_failed_amortized_computation_counter_list[local_index] = 0
         else:
             # Increment counter for failed amortized computations.
-            self._masked_failed_amortized_computation_counter_list[
-                preconditioner_index
-            ] += 1
+            self._local_failed_amortized_computation_counter_list[local_index] += 1
             # Raise the exception if the tolerance at the given index is exceeded.
-            failure_counter = self._masked_failed_amortized_computation_counter_list[
-                preconditioner_index
+            failure_counter = self._local_failed_amortized_computation_counter_list[
+                local_index
             ]
             tolerance = (
                 self._preconditioner_config.num_tolerated_failed_amortized_computations
@@ -774,9 +773,9 @@ class BaseShampooPreconditionerList(
         # Masked lists are the list of active preconditioners or values after filtering out gradients with None.
         self._masked_order_list: tuple[int, ...] = self._local_order_list
         self._masked_root_list: tuple[int, ...] = self._local_root_list
-        self._masked_failed_amortized_computation_counter_list: list[int] = (
-            self._local_failed_amortized_computation_counter_list
-        )
+        self._masked_failed_amortized_computation_counter_index_list: tuple[
+            int, ...
+        ] = tuple(range(len(self._local_failed_amortized_computation_counter_list)))
         self._masked_kronecker_factors_list: tuple[
             ShampooKroneckerFactorsListType,
             ...,
@@ -810,13 +809,11 @@ class BaseShampooPreconditionerList(
             self._masked_root_list: tuple[int, ...] = compress_list(  # type: ignore[no-redef]
                 self._local_root_list, local_grad_selector
             )
-            self._masked_failed_amortized_computation_counter_list: list[int] = (  # type: ignore[no-redef]
-                list(
-                    compress_list(
-                        self._local_failed_amortized_computation_counter_list,
-                        local_grad_selector,
-                    )
-                )
+            # NOTE: The failure counters live in the local list (one per local block) so that they survive
+            # changes of the gradient selector; the masked list only maps masked positions to local positions.
+            self._masked_failed_amortized_computation_counter_index_list = compress_list(
+                tuple(range(len(self._local_failed_amortized_computation_counter_list))),
+                local_grad_selector,
             )
             self._masked_kronecker_factors_list: tuple[  # type: ignore[no-redef]
                 ShampooKroneckerFactorsListType,
